@@ -29,6 +29,7 @@ def run(ck, fb):
     r10d(ck, fb)
     r10e(ck, fb)
     r10f(ck, fb)
+    r10g(ck, fb)
 
 
 def r10a(ck, fb):
@@ -277,3 +278,23 @@ def r10f(ck, fb):
             ck.require(ok, 'R10f', '%s:drop-only-when-empty' % fn, where,
                        'a whole entry is scheduled for removal without set.is_empty() having been found true after the member was removed')
     ck.floor('R10f', 'whole-entry drop sites', n_drop, 4)
+
+
+def r10g(ck, fb):
+    ck.rule('R10g', 'a registration is not undone inside ConfigListener::add: nothing removes ids from a per-key listener list (retain / remove / '
+                    'clear / pop / truncate / drain) before the new id\'s sender has been stored in sender_map. Pruning by "has a sender" in front of '
+                    'that insert throws the id that was just pushed away: a second long-poll on a key is then never woken by a publish')
+    a = ck.body(CL + 'add', 'R10g')
+    if not a:
+        return
+    ins = util.mut_calls_on_field(a, 'sender_map', r'(HashMap::<K, V, S, A>|BTreeMap::<K, V, A>)::insert$')
+    ck.floor('R10g', 'sender_map.insert in add', len(ins), 1)
+    prunes = []
+    for x in util.region(fb, a):
+        for s0 in x.calls(r'Vec::<T, A>::(retain|remove|clear|pop|truncate|drain|swap_remove|dedup)'):
+            prunes.append((x, s0))
+    for (x, s0) in prunes:
+        ok = x is a and any(cfg.dominates_blocks(a, {i.bb}, s0.bb) for i in ins)
+        ck.require(ok, 'R10g', 'add:no-prune-before-sender-stored', s0.where(),
+                   'ids are removed from a listener list inside add() before the new sender is in sender_map (%s)' % s0.callee.split('::')[-1])
+    ck.ok('R10g', 'add:prune-sites', a.where(), '%d' % len(prunes))
